@@ -94,9 +94,13 @@ def lean_hygiene():
 
 
 def property_files(prop):
-    """Properties/<prop>.lean plus companions Properties/<prop><Suffix>.lean (e.g. C04Fuel.lean)"""
+    """Properties/<prop>.lean plus companions Properties/<prop><Suffix>.lean (e.g. C04Fuel.lean), plus any other file of
+    Properties/ that states a theorem named <prop>_... (e.g. the C18_cleanup_* theorems next to C04's in C04Cleanup.lean)"""
     d = LEAN / "AsyncVerif" / "Properties"
-    return sorted(p for p in d.glob(prop + "*.lean") if re.fullmatch(re.escape(prop) + r"[A-Za-z]*", p.stem))
+    own = [p for p in d.glob(prop + "*.lean") if re.fullmatch(re.escape(prop) + r"[A-Za-z]*", p.stem)]
+    pat = re.compile(r"^\s*(?:@\[[^\]]*\]\s*)?theorem\s+%s_" % re.escape(prop), re.M)
+    guests = [p for p in d.glob("*.lean") if p not in own and pat.search(_strip_comments(p.read_text()))]
+    return sorted(own) + sorted(guests)
 
 
 def property_theorems(prop):
